@@ -427,7 +427,30 @@ def r04_8(ctx) -> None:
     ctx.count("R04.8", n, 1, "try blocks around decrypt_recipient")
 
 
+def r04_9(ctx) -> None:
+    """every serialization hands the caller's sender key on: wherever a function with a `sender_key` parameter calls a function with a
+    `sender_key` parameter it passes its own value (ECDH-1PU would otherwise be undecryptable in that serialization only)"""
+    eng = ctx.eng
+    n = 0
+    for fn in eng.prog.all_functions():
+        if "sender_key" not in fn.params:
+            continue
+        for s in eng.cg.calls_in(fn):
+            if not isinstance(s.node, ast.Call):
+                continue
+            for c in s.callees:
+                if "sender_key" not in c.params or c is fn:
+                    continue
+                n += 1
+                a = eng.cg.arg_for_param(s, c, "sender_key")
+                ok = a is not None and norm(a) == "sender_key"
+                ctx.check(ok, "R04.9", fn, s.node, f"{fn.short} -> {c.short}", f"{fn.short} does not pass its `sender_key` on to {c.short} "
+                          f"({'argument omitted' if a is None else 'passes ' + norm(a)})", "sender_key=sender_key", construct=f"sender_key forwarding {fn.short} -> {c.short}")
+    ctx.count("R04.9", n, 2, "call sites between functions that both take `sender_key`")
+
+
 def run(ctx) -> None:
+    ctx.guard(r04_9)
     ctx.guard(r04_8)
     ctx.guard(r04_7)
     # "with DEF, for plaintexts up to the decompression limit": the completion gate of the bounded inflater (C17) decides whether a
@@ -435,6 +458,8 @@ def run(ctx) -> None:
     from .c17 import r17_2_5, r17_3
     ctx.guard_as("R04.6", r17_2_5)
     ctx.guard_as("R04.6", r17_3)
+    from .c08 import r08_3
+    ctx.guard_as("R04.10", r08_3)  # plaintext shapes (empty, block-aligned): AES-CBC with PKCS#7 padding from the library, CBC-HMAC layout
     ctx.guard(r04_5)
     ctx.guard(r04_1)
     ctx.guard(r04_2)
